@@ -383,6 +383,9 @@ impl Check for BackupCheck {
         res.stats.add("context_switches", run.switches);
         res.stats.see("schedules", run.ctx_hash);
         res.stats.inc(if params.concurrent { "config:concurrent" } else { "config:quiescent" });
+        if std::env::var("VERIF_DEBUG").is_ok() {
+            eprintln!("C29CASE {} steps={} points={:?}", case.seed, run.steps, run.points);
+        }
         let schedule = Some(run.decisions.clone());
         match &run.outcome {
             Err(e) => {
